@@ -309,8 +309,9 @@ def evaluate(k, trace, tier, seed, res: Result, only=None):
         return
     o, _ = hop.state_arrays(trace)
     if base['states'].tolist() != o:
-        res.stats['state_recovery_failed'] += 1
-        return
+        # the symbolic trace was not recovered (C02's business); the invariance comparison below does not
+        # depend on it, so the scenario is still used
+        res.stats['base_states_differ_from_symbolic_trace'] += 1
     res.stats['base_scenarios'] += 1
     res.outcome(hash((lname, base['states'].tobytes(), tuple(sorted(base['jumps'])), base['volume'].tobytes(), round(base['metrics'][0] * 1e12, 6))))
     dims = base['volume'].shape
@@ -353,7 +354,7 @@ def run_shard(shard) -> Result:
 def finalize(total, tier):
     from ..core import HarnessError
 
-    if total.stats['base_scenarios'] == 0 or total.stats['state_recovery_failed'] > total.stats['base_scenarios']:
+    if total.stats['base_scenarios'] == 0:
         raise HarnessError(f'scenario construction failed too often: {dict(total.stats)}')
 
 
